@@ -357,6 +357,68 @@ theorem die_missing_delim_list (o : Opts) {path : Path} {put : Container → Cif
   die_item_of_value o hv isBlock n .olist btx (valsToks vs) fs ls CIF_MISSING_DELIM _ _ termFollow hname hfresh rfl rfl
     (dieVal_open_list o btx vs hw)
 
+/-- the entries of a table up to a token that ends the table without closing it, abort-on-error handler -/
+theorem entries_open_die (o : Opts) : ∀ (es : List (Str × Presentation × Val)) (ty : TokType) (tx : Str) (ts : List TokSpec) (s : PS)
+    (fuel : Nat) (w : W) (acc : List (Str × Str × V)), wfEntries o es = true → szEntries es + 1 ≤ fuel → isTerminator ty = true →
+    Feeds o s (entriesToks es ++ (ty, tx) :: ts) →
+    ∃ r, tableLoop o fuel s acc dieAll w = .abort (CIF_MISSING_DELIM : Int) { w with log := r :: w.log }
+      ∧ r.code = CIF_MISSING_DELIM ∧ RepAt o s (entriesToks es).length r
+  | [], ty, tx, ts, s, fuel, w, acc, _, hf, hterm, hF => by
+    obtain ⟨f, rfl⟩ : ∃ f, fuel = f + 1 := ⟨fuel - 1, by omega⟩
+    simp only [entriesToks, List.nil_append] at hF
+    obtain ⟨t, s', hty, htx, hn, ht, hr⟩ := hF.inv
+    have a0 : At o s (entriesToks []).length s' := ((At.refl o s).peek hn ht).cast (by simp [entriesToks])
+    refine ⟨⟨CIF_MISSING_DELIM, s'.scan.line, s'.scan.col - t.text.length⟩, ?_, rfl, ⟨s', a0, rfl⟩⟩
+    rw [tableLoop]
+    cases ty <;> simp [isTerminator, isKeyTok, isValueStart] at hterm <;>
+      simp only [bind_eq, pure_eq, P.bind, P.pure, hn, hty, report_die CIF_MISSING_DELIM _ _ w (by decide)]
+  | (k, kp, v) :: es, ty, tx, ts, s, fuel, w, acc, hw, hf, hterm, hF => by
+    obtain ⟨f, rfl⟩ : ∃ f, fuel = f + 1 := ⟨fuel - 1, by omega⟩
+    simp only [wfEntries, Bool.and_eq_true, Bool.not_eq_true'] at hw
+    simp only [szEntries] at hf
+    have hp := szVal_pos v
+    obtain ⟨g, rfl⟩ : ∃ g, f = g + 1 := ⟨f - 1, by omega⟩
+    simp only [entriesToks, List.cons_append, List.append_assoc] at hF
+    obtain ⟨t, s', hty, htx, hn, htk, hr⟩ := hF.inv
+    obtain ⟨vty, vtx, vts, hvt, hstart, _⟩ := valToks_head v
+    have hr' := hr
+    rw [hvt, List.cons_append] at hr'
+    obtain ⟨t2, s2, hty2, htx2, hn2, ht2, hr2⟩ := hr'.inv
+    have hpend : Feeds o s2 (valToks v ++ (entriesToks es ++ (ty, tx) :: ts)) := by
+      rw [hvt, List.cons_append, ← hty2, ← htx2]; exact Feeds.pending ht2 hr2
+    obtain ⟨s3, h1, h2, ha1⟩ := value_structure_at o v _ s2 g dieAll w hw.1.2 (by omega) hpend
+    obtain ⟨r, h3, hc, hrep⟩ := entries_open_die o es ty tx ts s3 g w (putEntry o.normKey acc k (denoteVal o.dia o.normKey v)) hw.2
+      (by omega) hterm h2
+    have a1 : At o s (1 + (valToks v).length) s3 := (((At.refl o s).step hn htk).peek hn2 ht2).trans ha1
+    refine ⟨r, ?_, hc, (RepAt.shift a1 hrep).cast (by simp [entriesToks]; omega)⟩
+    rw [tableLoop]
+    simp only [bind_eq, pure_eq, P.bind, P.pure, hn, hty, htx, cstr_noNul hw.1.1.1]
+    rw [tableEntry]
+    simp only [bind_eq, pure_eq, P.bind, P.pure, hw.1.1.2, Bool.false_eq_true, if_false, hn2, hty2, hstart, if_true, h1,
+      tableSet_eq_putEntry, h3]
+
+/-- an unterminated table as a value -/
+theorem dieVal_open_table (o : Opts) (btx : Str) (es : List (Str × Presentation × Val)) (hw : wfEntries o es = true) :
+    DieVal o ((.otable, btx) :: entriesToks es) CIF_MISSING_DELIM (1 + (entriesToks es).length) (szEntries es + 2) termFollow := by
+  intro rest s fuel w hf hfol hF
+  obtain ⟨ty, tx, ts, rfl, hterm⟩ := hfol
+  obtain ⟨f, rfl⟩ : ∃ f, fuel = f + 1 := ⟨fuel - 1, by omega⟩
+  simp only [List.cons_append] at hF
+  obtain ⟨t, s1, hty, _, hn, htk, hr⟩ := hF.inv
+  obtain ⟨r, h1, hc, hrep⟩ := entries_open_die o es ty tx ts (consume s1) f w [] hw (by omega) hterm hr
+  refine ⟨r, ?_, hc, RepAt.shift ((At.refl o s).step hn htk) hrep⟩
+  rw [parseValue]
+  simp only [bind_eq, pure_eq, P.bind, P.pure, hn, hty, h1]
+
+/-- **an item whose table value is not closed**, abort-on-error handler: the item is not stored -/
+theorem die_missing_delim_table (o : Opts) {path : Path} {put : Container → Cif} {code : Str} (hv : View o path put code)
+    (isBlock : Bool) (n btx : Str) (es : List (Str × Presentation × Val)) (fs : List Container) (ls : List Loop)
+    (hname : wfName n = true) (hfresh : o.norm n ∉ normNames o ls) (hw : wfEntries o es = true) :
+    DieSeg o path put code isBlock ((.name, n) :: (.otable, btx) :: entriesToks es) fs ls fs ls CIF_MISSING_DELIM
+      (1 + (1 + (entriesToks es).length)) (szEntries es + 2 + 1) termFollow :=
+  die_item_of_value o hv isBlock n .otable btx (entriesToks es) fs ls CIF_MISSING_DELIM _ _ termFollow hname hfresh rfl rfl
+    (dieVal_open_table o btx es hw)
+
 /-! ### the defect at any depth of nesting -/
 
 /-- one level of the nesting context in front of the defect: the elements in front of the frame that is open, and its code -/
